@@ -160,7 +160,16 @@ func runBuild(tr *vtrace.Writer, c *Case) {
 				hs = append(hs, rh("route", nr, i))
 			}
 			rel := fmt.Sprintf("/r%d", nr)
-			groups[op.G].POST(rel, hs...)
+			// the registration entry point rotates with the route number (route 0 stays POST-only: it is also
+			// the target of the method-not-allowed request)
+			switch nr % 3 {
+			case 1:
+				groups[op.G].Any(rel, hs...)
+			case 2:
+				groups[op.G].Handle("POST", rel, hs...)
+			default:
+				groups[op.G].POST(rel, hs...)
+			}
 			paths = append(paths, groups[op.G].BasePath()+rel)
 			nr++
 		case "NoRoute":
